@@ -56,6 +56,15 @@ fn main() {
                 replay = Some(args[i + 1].clone());
                 i += 2;
             }
+            // cargo-miri replays the *build-time* environment at run time, so run-time selections must come through argv
+            "--engines" => {
+                std::env::set_var("VERIF_C01_ENGINES", &args[i + 1]);
+                i += 2;
+            }
+            "--deep" => {
+                std::env::set_var("VERIF_MIRI_DEEP", "1");
+                i += 1;
+            }
             x => {
                 eprintln!("bad arg {x}");
                 std::process::exit(2)
